@@ -393,6 +393,16 @@ func main() {
 			}
 		})
 		w.Close()
+		if *prop == "C03" {
+			// marker names with Unicode white space around them: judged against golang.org/x/tools/txtar (the reference the
+			// statement names), Format/Parse stability and totality; the byte-wise specification is not consulted
+			us := make([][]byte, *n/4)
+			for i := range us {
+				us[i] = randomUspaceInput(rng, *maxlen)
+			}
+			vutil.ParallelN(len(us), func(i int) { checkC03(res, us[i], nil) })
+			res.Count("unicode_space_inputs", int64(len(us)))
+		}
 	default:
 		vutil.Fatalf("unknown mode %s", *mode)
 	}
